@@ -494,9 +494,50 @@ func (e *Exec) receiverValue(st *State, recvExpr ast.Expr, fn *types.Func, sel *
 	sig := fn.Type().(*types.Signature)
 	rt := sig.Recv().Type()
 	xt := e.typeOf(recvExpr)
-	// promoted methods through embedded fields
+	// promoted methods through embedded fields: the receiver is the embedded field (copy-in / copy-out)
 	if sel != nil && len(sel.Index()) > 1 {
-		e.unsupported(recvExpr.Pos(), "promoted method %s", fn.Name())
+		var cur lval
+		curT := xt
+		idx := sel.Index()
+		if isPointer(xt) {
+			ref := e.eval(st, recvExpr)
+			e.safe(st, "nil", recvExpr, Not(Eq(ref, Int(0))))
+			elem := xt.Underlying().(*types.Pointer).Elem()
+			f := structOf(elem).Field(idx[0])
+			cur = heapLval{e, e.fieldKey(elem, f), ref}
+			curT = f.Type()
+			idx = idx[1:]
+		} else {
+			cur = e.lvalOf(st, recvExpr)
+		}
+		for _, i := range idx[:len(idx)-1] {
+			cur, curT = e.stepField(st, recvExpr, cur, curT, i)
+		}
+		wantPtr := isPointer(rt)
+		if isPointer(curT) {
+			ref := cur.get(st)
+			if wantPtr {
+				return ref, nil
+			}
+			return e.loadStruct(st, ref, curT.Underlying().(*types.Pointer).Elem()), nil
+		}
+		v := cur.get(st)
+		if !wantPtr {
+			return v, nil
+		}
+		if structOf(curT) == nil {
+			e.unsupported(recvExpr.Pos(), "promoted method %s on non-struct embedded field", fn.Name())
+			return v, nil
+		}
+		ref := e.allocRef(st, "cell")
+		e.storeStructRaw(st, ref, curT, v)
+		loc := cur
+		ct := curT
+		back := func(s *State) { loc.set(s, e.Ctx.Define("cpout", e.keepMemo(ct, e.loadStruct(s, ref, ct), v))) }
+		if e.spec > 0 {
+			back = nil
+		}
+		return ref, back
 	}
 	if isInterface(rt) || isInterface(xt) {
 		return e.eval(st, recvExpr), nil
